@@ -225,7 +225,50 @@ fn band_states(universe_len: usize) -> Vec<BandSpec> {
     out
 }
 
+/// Scale probe: an interrupted band with 10 003 one-entry hunks (two index sub-directories)
+/// over a complete band holding all 10 010 entries in one hunk.
+fn probe_many_hunks(cx: &mut Cx) -> CaseResult {
+    let root = cx.dir("many-hunks");
+    crate::engine::force_remove(&root);
+    format::write_archive_header(&root);
+    let paths: Vec<String> = (0..10_010).map(|i| format!("/f{i:05}")).collect();
+    format::write_band_head(&root, 0);
+    let all: Vec<serde_json::Value> = paths.iter().enumerate().map(|(i, p)| format::entry_json(p, "Dir", i as i64, &[], None)).collect();
+    format::write_hunk(&root, 0, 0, &all);
+    format::write_band_tail(&root, 0, 1);
+    format::write_band_head(&root, 1);
+    for (i, p) in paths.iter().enumerate().take(10_003) {
+        format::write_hunk(&root, 1, i as u32, &[format::entry_json(p, "Dir", 1_000_000 + i as i64, &[], None)]);
+    }
+    let ra = format::scan(&root);
+    let reference = format::ref_listing(&ra, 1);
+    ensure!(reference.len() == 10_010, "C08/harness/probe", "reference has {} entries", reference.len());
+    let l = ops::list_entries(&root, &None, &Sel::Band(1), "/", &[], 20_000);
+    ensure!(l.clean(), "C08/probe-many-hunks/listing-reported-errors", "{}", l.describe());
+    let got = l.result.unwrap();
+    let gp: Vec<(String, i64)> = got.iter().map(|e| (e.apath.to_string(), e.mtime)).collect();
+    let wp: Vec<(String, i64)> = reference.iter().map(|(e, _)| (e.apath.clone(), e.mtime)).collect();
+    if gp != wp {
+        let i = gp.iter().zip(wp.iter()).position(|(a, b)| a != b).unwrap_or(gp.len().min(wp.len()));
+        fail!(
+            "C08/listing-differs-from-stitching-rule/probe-many-hunks",
+            "listing of the 10 003-hunk interrupted band has {} entries, the rule gives {}; first difference at position {i}: got {:?}, want {:?}",
+            gp.len(),
+            wp.len(),
+            gp.get(i),
+            wp.get(i)
+        );
+    }
+    crate::engine::force_remove(&root);
+    cx.add_evals(1);
+    cx.inner_nontrivial += 1;
+    Ok(())
+}
+
 fn enumerate(tier: Tier, idx: u32, of: u32, cx: &mut Cx) -> CaseResult {
+    if crate::probes::mine(idx, of) {
+        probe_many_hunks(cx)?;
+    }
     // universe in reference order; chosen to straddle the '/'-ordering subtleties
     let universe: Vec<String> = match tier {
         Tier::Quick => vec!["/a", "/a.b", "/a/b"],
@@ -340,7 +383,7 @@ pub fn prop() -> Prop<Case> {
     Prop {
         id: "C08",
         level: "exploration",
-        rule: "archives are written directly by the harness in the documented format. Enumeration: every arrangement of 3 band slots, each in {absent, directory without head (with or without a stray tail), head(+tail) without hunks, head + any non-empty sorted subset of the universe split into 1 or 2 hunks, with or without tail} over the universe {/a, /a.b, /a/b} (quick; thorough adds /é), listed for every N that has a head and subtree in {/, /a, /a.b}. Generated: up to 5 slots with id gaps and ids crossing b9999/b10000, universes of 4-10 generated paths, up to 5 hunks per band incl. empty [] hunks and missing trailing hunks, subtree from the universe or absent, exclude sets. Oracle: Archive::iter_entries == reference stitcher (own entries, then nearest earlier band with a head after the last path taken, until a closed band) filtered by containment and the exclude rule, entry-for-entry with provenance encoded in mtime; strictly increasing under the reference order; never longer than the archive's entry count (termination). Non-trivial = N incomplete, an older band continues it, and the resume point falls strictly inside a hunk of the older band or skips over an absent/head-less slot; enumerated listings distinct by construction, generated by case hash",
+        rule: "archives are written directly by the harness in the documented format. Enumeration: every arrangement of 3 band slots, each in {absent, directory without head (with or without a stray tail), head(+tail) without hunks, head + any non-empty sorted subset of the universe split into 1 or 2 hunks, with or without tail} over the universe {/a, /a.b, /a/b} (quick; thorough adds /é), listed for every N that has a head and subtree in {/, /a, /a.b}. Generated: up to 5 slots with id gaps and ids crossing b9999/b10000, universes of 4-10 generated paths, up to 5 hunks per band incl. empty [] hunks and missing trailing hunks, subtree from the universe or absent, exclude sets. One fixed scale probe: an interrupted band of 10 003 one-entry hunks over a complete one. Oracle: Archive::iter_entries == reference stitcher (own entries, then nearest earlier band with a head after the last path taken, until a closed band) filtered by containment and the exclude rule, entry-for-entry with provenance encoded in mtime; strictly increasing under the reference order; never longer than the archive's entry count (termination). Non-trivial = N incomplete, an older band continues it, and the resume point falls strictly inside a hunk of the older band or skips over an absent/head-less slot; enumerated listings distinct by construction, generated by case hash",
         assumptions: &[
             "head-less directories are not 'existing versions' (the stitcher skips them)",
             "reference stitcher and containment/exclude oracles are the harness's own",
